@@ -11,7 +11,6 @@
 From Coq Require Import NArith List Bool Permutation.
 From PS Require Import Base.Chars Base.Outcome Model.VCond Model.Validators Spec.ValidatorsSpec Proofs.ValidatorsP.
 Import ListNotations.
-Open Scope N_scope.
 
 (* the regular expression built from a selector pattern selects exactly the names the pattern
    denotes (glob reading of '*', "them", underscore rule) *)
@@ -110,11 +109,15 @@ Print Assumptions C19_no_duplicates.
 (* the executable tests the specification oracle of the correspondence check is built from decide
    the declarative notions used in the theorems above *)
 Theorem C19_oracle_atoms :
-  (forall p n, selectedb p n = true <-> Selected p n) /  (forall D n t, refersb D n t = true <-> Refers D t n) /  (forall t p, In p (sel_pats t) <-> HasSel t p) /  (forall D p, unmatchedb D p = true <-> Unmatched D p).
+  (forall p n, selectedb p n = true <-> Selected p n) /\
+  (forall D n t, refersb D n t = true <-> Refers D t n) /\
+  (forall t p, In p (sel_pats t) <-> HasSel t p) /\
+  (forall D p, unmatchedb D p = true <-> Unmatched D p).
 Proof. exact oracle_atoms. Qed.
 Print Assumptions C19_oracle_atoms.
 
 (* non-vacuity: a collection on which every kind of issue arises *)
+Open Scope N_scope.
 Definition ex_rule (k : N) (i : option str) (t : str) (p : list str) (d : list str) (c : str) : rule :=
   {| r_key := k; r_corr := false; r_id := i; r_title := Some t; r_path := Some p; r_dets := d; r_conds := [c] |}.
 Example C19_premises_inhabited :
